@@ -42,7 +42,7 @@ impl Reader {
         let mmap: RwLockReadGuard<'static, MmapMut> = unsafe { std::mem::transmute(db.mmap()) };
 
         #[cfg(anydb_verif)]
-        let verif_id = crate::verif::register_reader(unsafe { mmap.as_ptr().add(start) }, &region);
+        let verif_id = crate::verif::register_reader(unsafe { mmap.as_ptr().add(start) }, &region, &mmap[..]);
 
         Self {
             _db: db,
